@@ -801,7 +801,7 @@ func init() {
 		ID: "C12",
 		NumBatches: func(tier string, seed int64) int {
 			if tier == "thorough" {
-				return 1024
+				return 2048
 			}
 			return 128
 		},
